@@ -266,6 +266,44 @@ def run_encoder(facts, summaries, value, digits, pattern, maxcycles=600, hold=Tr
     return ''.join(out)
 
 
+def run_encoder_seq(facts, summaries, requests, pattern, gap, maxcycles=900):
+    """several responses on ONE encoder: request k+1 is raised `gap` cycles after the '!' of response k was handed over (gap >= 1)"""
+    D = Design(facts, summaries)
+    vin, size, start, ready, valid, v = D.wire('vin', 40), D.wire('size', 8), D.wire('start_resp'), D.wire('ready'), D.wire('valid'), D.wire('v', 8)
+    D.make('CMDResponse', 'resp', vin, size, start, ready, valid, v, rel=REL)
+    D.prepare()
+    out = []
+    k = 0
+    next_at = 2
+    t = 0
+    done = None
+    while t < maxcycles:
+        t += 1
+        req = k < len(requests) and t == next_at
+        cur = requests[min(k, len(requests) - 1)]
+        D.put(vin, cur[0])
+        D.put(size, cur[1])
+        D.put(start, 1 if req else 0)
+        D.put(ready, pattern(t))
+        D.settle()
+        transfer = D.get(valid) == 1 and D.get(ready) == 1
+        ch = D.get(v)
+        D.clock()
+        if req:
+            k += 1
+            next_at = None
+        if transfer:
+            out.append(chr(ch) if 32 <= ch < 127 else '\\x%02x' % ch)
+            if out[-1] == '!':
+                if k < len(requests):
+                    next_at = t + gap
+                else:
+                    done = t
+        if done and t > done + 12:
+            break
+    return ''.join(out)
+
+
 def check_encoder(ctx, facts, tier, seed):
     summaries = {}
     where = '%s:CMDResponse.clock' % REL
@@ -305,6 +343,24 @@ def check_encoder(ctx, facts, tier, seed):
                               witness=dict(value_in_request_cycle=hex(value), digits=digits, consumer=pname, transferred=got, expected=exp))
                 return
         ctx.ok('C20.b', 'value:%s/%d' % (hex(value), digits), '%d consumer pacings: %s' % (len(pats), exp), grade='bounded')
+    # several responses on one encoder: the same value with another digit count, another value, requests close behind the previous '!'
+    seqs = [[(0x0, 2), (0x0, 4)], [(0x5A, 2), (0x5A, 1), (0x5A, 3)], [(0xBEEF, 4), (0x12, 4)], [(0x7, 1), (0x7, 1)]]
+    ns = 0
+    for reqs in seqs:
+        exp = ''.join('=' + ('%0*X' % (d, val))[-d:] + '!' for val, d in reqs)
+        for pname, pat in pats[:4]:
+            for gap in (1, 2, 3, 5):
+                try:
+                    got = run_encoder_seq(facts, summaries, reqs, pat, gap)
+                except (EvalError, Nondet, NetError) as e:
+                    got = 'fails: %s' % e
+                ns += 1
+                if got != exp:
+                    ctx.violation('C20.b', 'responses-in-sequence', 'a later response on the same encoder differs from "=" <hex digits> "!" for its own value and digit count '
+                                  '(state of an earlier response survives, or the request is missed)', where,
+                                  witness=dict(requests=[(hex(a), d) for a, d in reqs], cycles_between_done_and_next_request=gap, consumer=pname, transferred=got, expected=exp))
+                    return
+    ctx.ok('C20.b', 'responses-in-sequence', '%d runs of 2-3 responses on one encoder (same value / other digit count, requests 1..5 cycles after the previous "!")' % ns, grade='bounded')
     ctx.ok('C20.b', 'encoder', '%d (value, digits, consumer pacing) runs: transferred text equals = <upper-case hex, MSB first> !' % n, grade='bounded')
     ctx.sample(dict(rule='C20.b', value='0x1234ABCD', digits=9, expected='=01234ABCD!'))
 
